@@ -39,6 +39,7 @@ func VH_C19_sam() {
 	w0 := &vFailWriter{}
 	vAssert("C19.sam.no-failure-no-error", run(w0) == nil && w0.n > 0)
 	k := 1 + vChoice("k", w0.n)
+	vRaceDetect()
 	vSchedExplore(vParam("DEV"))
 	err := run(&vFailWriter{failAt: k})
 	vAssert("C19.sam.failed-write-is-reported", err != nil)
